@@ -25,7 +25,8 @@ def to_pandas(frame):
             if any(x is None for x in v):
                 data[c["name"]] = pd.array([np.nan if x is None else float(x) for x in v], dtype="float64")
             else:
-                data[c["name"]] = np.array(v, dtype="int64")
+                # "dtype": a narrower integer dtype the values fit in (the model sees the same integers)
+                data[c["name"]] = np.array(v, dtype=c.get("dtype", "int64"))
         elif t == "nint":
             # pandas' nullable integer dtype: missing cells are pd.NA
             data[c["name"]] = pd.array([None if x is None else int(x) for x in v], dtype="Int64")
